@@ -1359,6 +1359,7 @@ func Main(prop string) {
 	})
 	run.Assume("script validity of generated inputs is ground truth by construction (valid spends signed with the library's signer, invalid ones corrupted); C01-C03 tie that to the specification")
 	run.Assume("the reference model /verif/ref/refchain is the oracle for every other rule; it shares no code with gocoin")
+	os.RemoveAll(tmp) // Finish exits the process: deferred clean-up would not run
 	run.Finish("each delivery = one block (valid, or violating exactly one consensus rule, or the valid neighbour across the boundary) offered to the real chain code and to the reference; after each: tip + full UTXO dump compared; distinct_nontrivial = distinct (probe family, height) pairs",
 		"deliveries", "probe_x_height", 20)
 }
